@@ -96,6 +96,8 @@ enum Handle_ {
     Proxy(zbus::Proxy<'static>),
     SignalStream(zbus::proxy::SignalStream<'static>),
     IfaceRef(zbus::object_server::InterfaceRef<Slow>),
+    /// a proxy whose property cache was started and populated (the peer answered GetAll)
+    CachedProxy(zbus::Proxy<'static>),
 }
 
 fn handle_name(h: &Handle_) -> &'static str {
@@ -106,10 +108,11 @@ fn handle_name(h: &Handle_) -> &'static str {
         Handle_::Proxy(_) => "proxy",
         Handle_::SignalStream(_) => "signal-stream",
         Handle_::IfaceRef(_) => "iface-ref",
+        Handle_::CachedProxy(_) => "cached-proxy",
     }
 }
 
-/// kinds: bitmask over [clone, stream, rule-stream, proxy, signal-stream, iface-ref]
+/// kinds: bitmask over [clone, stream, rule-stream, proxy, signal-stream, iface-ref, cached-proxy]
 fn drop_scenario(mask: u32, with_server: bool) -> ExecResult {
     let mut w = World::new();
     w.horizon = 400;
@@ -163,7 +166,46 @@ fn drop_scenario(mask: u32, with_server: bool) -> ExecResult {
             (conn, hs)
         })
         .expect("build");
-    let (conn, hs) = built;
+    let (conn, mut hs) = built;
+    if mask & 64 != 0 {
+        // a proxy with caching on: the harness plays the remote object and answers GetAll
+        let c2 = conn.clone();
+        let h = w.spawn("cached-proxy", async move {
+            let proxy: zbus::Proxy<'static> = zbus::proxy::Builder::new(&c2)
+                .destination(":1.5")?
+                .path("/o")?
+                .interface("a.b.I")?
+                .cache_properties(CacheProperties::Yes)
+                .build()
+                .await?;
+            Ok::<_, zbus::Error>(proxy)
+        });
+        w.settle();
+        let out = link.a2b.written();
+        let (msgs, _) = split_messages(&out);
+        for r in msgs {
+            if let Ok(m) = parse_message(&out[r]) {
+                if m.header().member().map(|m| m.as_str() == "GetAll").unwrap_or(false) {
+                    let mut map: std::collections::HashMap<&str, zbus::zvariant::Value<'_>> = Default::default();
+                    map.insert("P", zbus::zvariant::Value::from(1u32));
+                    let reply = zbus::Message::method_return(&m.header()).unwrap().build(&(map,)).unwrap();
+                    link.b2a.push(reply.data().bytes(), vec![]);
+                }
+            }
+        }
+        w.settle();
+        match h.take() {
+            Some(Ok(p)) => {
+                let _ = p.cached_property::<u32>("P");
+                hs.push(Handle_::CachedProxy(p));
+            }
+            other => {
+                let mut res = ExecResult::default();
+                res.violations.push(v("harness", format!("cached proxy could not be built: {:?}", other.map(|r| r.map(|_| ()).map_err(|e| e.to_string())))).feat("kind", "harness"));
+                return res;
+            }
+        }
+    }
     let mut handles: Vec<Option<Handle_>> = hs.into_iter().map(Some).collect();
     let mut main = Some(conn);
     let mut res = ExecResult::default();
@@ -325,13 +367,14 @@ pub fn main(args: &Args) -> i32 {
     let totals = Mutex::new(Totals::default());
     let quick = args.tier == vcommon::Tier::Quick;
     for with_server in [false, true] {
-        for mask in 0u32..64 {
+        for mask in 0u32..128 {
             if !with_server && mask & 32 != 0 {
                 continue;
             }
             let n = mask.count_ones();
-            // quick: all subsets of ≤ 3 handle kinds (+ the full set); thorough: all subsets
-            if quick && n > 3 && mask != 63 && mask != 31 {
+            // quick: all subsets of ≤ 2 handle kinds, those of 3 that include the cached proxy
+            // (+ the full sets); thorough: all subsets
+            if quick && !(n <= 2 || (n == 3 && mask & 64 != 0) || mask == 127 || mask == 95 || mask == 63 || mask == 31) {
                 continue;
             }
             let plan = SchedPlan {
@@ -348,7 +391,7 @@ pub fn main(args: &Args) -> i32 {
             run_scenario(
                 &report,
                 &totals,
-                &format!("drop-handles-mask{mask:06b}-{}", if with_server { "server" } else { "plain" }),
+                &format!("drop-handles-mask{mask:07b}-{}", if with_server { "server" } else { "plain" }),
                 json!({"mask": mask, "with_server": with_server}),
                 &plan,
                 move || drop_scenario(mask, with_server),
